@@ -185,12 +185,7 @@ def _strides(shape):
     return tuple(reversed(st))
 
 
-class _NdarrayMeta(type):
-    def __instancecheck__(cls, x):
-        return type.__instancecheck__(cls, x) or isinstance(x, rnp.ndarray)
-
-
-class SArr(metaclass=_NdarrayMeta):
+class SArr:
     __array_priority__ = 1000
     __hash__ = None
 
@@ -566,6 +561,15 @@ class SArr(metaclass=_NdarrayMeta):
             return float("nan")
         s = _sum_cells(self.cells, F64 if self.dtype.kind == "f" else self.dtype)
         return _mk_float(s) / self.size
+
+
+class _NdarrayMeta(type):
+    def __instancecheck__(cls, x):
+        return isinstance(x, (SArr, rnp.ndarray))
+
+
+class ndarray_type(metaclass=_NdarrayMeta):
+    """what the twin sees as numpy.ndarray (isinstance checks in the repo)"""
 
 
 class SMasked:
@@ -1479,7 +1483,7 @@ def build_module():
                  "dtype", "iinfo", "finfo", "result_type", "min_scalar_type", "can_cast", "newaxis", "errstate", "seterr"):
         setattr(m, name, getattr(rnp, name))
     m.uint = rnp.uint
-    m.ndarray = SArr
+    m.ndarray = ndarray_type
     m.issubdtype = issubdtype
     m.unique = unique
     m.any = any_
